@@ -10,7 +10,7 @@ import (
 )
 
 // cmdIsgen classifies files for C16: G+ = ast.IsGenerated (go.dev/s/generatedcode),
-// G- = no comment in the file contains both marker phrases, else don't-care.
+// G- = no comment before the package clause has a line starting like the marker, else don't-care.
 func cmdIsgen(args []string) {
 	out := map[string]string{}
 	for _, p := range args {
@@ -24,15 +24,23 @@ func cmdIsgen(args []string) {
 		case ast.IsGenerated(f):
 			out[p] = "G+"
 		default:
-			both := false
+			// don't-care: a comment *before the package clause* has a line that starts like the marker
+			// (any case, any indentation, with or without the final period or trailing text) without
+			// meeting the convention exactly. A marker quoted in the middle of a sentence, or anywhere
+			// after the package clause, does not make a file generated under any reading.
+			dc := false
 			for _, cg := range f.Comments {
-				for _, c := range cg.List {
-					if strings.Contains(c.Text, "Code generated") && strings.Contains(c.Text, "DO NOT EDIT") {
-						both = true
+				if cg.Pos() > f.Package {
+					continue
+				}
+				for _, line := range strings.Split(cg.Text(), "\n") {
+					l := strings.ToLower(strings.TrimSpace(line))
+					if strings.HasPrefix(l, "code generated") && strings.Contains(l, "do not edit") {
+						dc = true
 					}
 				}
 			}
-			if both {
+			if dc {
 				out[p] = "dc"
 			} else {
 				out[p] = "G-"
